@@ -194,7 +194,8 @@ def run(ctx):
             k = norm(n.ast.targets[0].slice)
             n_st += 1
             def member(m, lab, k=k):
-                return m.kind == "test" and lab is True and norm(m.ast) == "%s in attrs" % k
+                return m.kind == "test" and ((lab is True and norm(m.ast) == "%s in attrs" % k) or
+                                             (lab is False and norm(m.ast) in ("%s not in attrs" % k, "not %s in attrs" % k)))
             r.check("R9.2", cfg.dominated_by(n, member), "store-under-membership[%s]" % k, "%s:%d" % (REL, n.lineno),
                     "attrs[%s] is assigned without a dominating test that the key is (still) present: a purged attribute can "
                     "be re-created" % k)
@@ -294,31 +295,43 @@ def uri_gate(ctx, at, cfg):
     if len(gate) != 1:
         raise AnalysisError("allowed_token: URI gate `if uri and uri.scheme` not found")
 
+    # the five predicates are made concrete (one representative value each), so that aliases and merged conditions evaluate:
+    # scheme present / allowed / is data / content type matched / content type allowed
+    cur = {}
+
+    def expr_hook(node, local):
+        t = norm(node)
+        if t == "uri.scheme":
+            return ("data" if cur["P_data"] else "http") if cur["P_scheme"] else ""
+        if t in ("self.allowed_protocols", "allowed_protocols"):
+            return frozenset([("data" if cur["P_data"] else "http")] if cur["P_allowed"] else ["zzz"])
+        if t in ("self.allowed_content_types", "allowed_content_types"):
+            return frozenset(["image/png"] if cur["P_ctype"] else ["x/y"])
+        if isinstance(node, ast.Call) and t.endswith(".group('content_type')"):
+            return "image/png"
+        if isinstance(node, ast.Call) and norm(node.func).endswith("data_content_type.match"):
+            return Opaque("<match>")
+        return NotImplemented
+
     def guard_hook(node, env, interp):
         t = norm(node)
-        table = {
-            "uri": env["P_scheme"], "uri.scheme": env["P_scheme"],
-            "uri.scheme not in self.allowed_protocols": not env["P_allowed"],
-            "uri.scheme in self.allowed_protocols": env["P_allowed"],
-            "uri.scheme == 'data'": env["P_data"],
-            "m": env["P_match"],
-            "m.group('content_type') not in self.allowed_content_types": not env["P_ctype"],
-            "m.group('content_type') in self.allowed_content_types": env["P_ctype"],
-        }
-        if t in table:
-            return table[t]
-        # the same tests against the module-level default lists (reported by R9.4) keep their meaning here
-        t2 = t.replace(" in allowed_protocols", " in self.allowed_protocols").replace(
-            " in allowed_content_types", " in self.allowed_content_types")
-        if t2 in table:
-            return table[t2]
+        if t == "uri":
+            return True
+        if isinstance(node, ast.Name) and isinstance(env.get(node.id), Opaque) and env[node.id].text == "<match>":
+            return cur["P_match"]
+        if isinstance(node, ast.Compare) and len(node.ops) == 1 and isinstance(node.ops[0], (ast.Is, ast.IsNot)) and \
+                isinstance(node.left, ast.Name) and isinstance(env.get(node.left.id), Opaque) and env[node.left.id].text == "<match>" and \
+                norm(node.comparators[0]) == "None":
+            return (not cur["P_match"]) if isinstance(node.ops[0], ast.Is) else cur["P_match"]
         return NotImplemented
-    interp = MiniInterp(ce, at.module, guard_hook=guard_hook)
+    interp = MiniInterp(ce, at.module, guard_hook=guard_hook, expr_hook=expr_hook)
     for vals in itertools.product((True, False), repeat=5):
         env = dict(zip(("P_scheme", "P_allowed", "P_data", "P_match", "P_ctype"), vals))
         if not env["P_scheme"] and (env["P_data"]):
             continue           # no scheme => not data
-        res = interp.run(gate, dict(env, self=Opaque("self")))
+        cur.clear()
+        cur.update(env)
+        res = interp.run(gate, {"self": Opaque("self")})
         dels = [e for e in res.effects if isinstance(e.node, ast.Delete) and norm(e.node.targets[0]) == "attrs[%s]" % attr]
         others = [e for e in res.effects if e not in dels and not isinstance(e.node, ast.Assign)]
         if others:
@@ -362,10 +375,97 @@ def configured(ctx):
                "of (namespace, name) tuples, so local-href stripping never runs")
 
 
+CSS_SAFE_KEYWORD_REF = r"^(#[0-9a-fA-F]+|rgb\(\d+%?,\d*%?,?\d*%?\)?|\d{0,2}\.?\d{0,2}(cm|em|ex|in|mm|pc|pt|px|%|,|\))?)$"
+
+
+def css_declarations_evaluated(ctx, f) -> bool:
+    """R9.5 by evaluation: the loop of sanitize_css that decides which declarations are kept is run on representative
+    (property, value) pairs under small configured lists; a declaration is kept iff the property is on one of the two property
+    lists, or belongs to a shorthand family and *every* keyword of the value is an allowed keyword or a colour / length (the
+    pattern confirmed on today's tree is the reference).  Returns False when the loop cannot be evaluated (the shape rule decides)."""
+    import re as _re
+    from ..partition import MiniInterp, Opaque
+    r = ctx.r
+    ce = ctx.ce
+    loop = next((n for n in ast.walk(f.node) if isinstance(n, ast.For) and isinstance(n.target, ast.Tuple) and len(n.target.elts) == 2 and
+                 any(norm(c.func) == "clean.append" for c in ast.walk(n) if isinstance(c, ast.Call))), None)
+    if loop is None:
+        return False
+    pv = [e.id for e in loop.target.elts if isinstance(e, ast.Name)]
+    if len(pv) != 2:
+        return False
+    lists = {"allowed_css_properties": frozenset(["color"]), "allowed_svg_properties": frozenset(["fill"]), "allowed_css_keywords": frozenset(["solid", "auto"])}
+    precompiled = {}
+    for st in f.module.tree.body:
+        if isinstance(st, ast.Assign) and len(st.targets) == 1 and isinstance(st.targets[0], ast.Name) and isinstance(st.value, ast.Call) and \
+                norm(st.value.func) == "re.compile" and st.value.args:
+            precompiled[st.targets[0].id] = st.value
+
+    def flag_of(exprs):
+        fl = 0
+        for x in exprs:
+            for part in norm(x).split("|"):
+                fl |= {"re.I": _re.I, "re.IGNORECASE": _re.I, "re.VERBOSE": _re.X, "re.X": _re.X}.get(part.strip(), 0)
+        return fl
+
+    def hook(node, local):
+        t = norm(node)
+        if t.startswith("self.") and t[5:] in lists:
+            return lists[t[5:]]
+        if isinstance(node, ast.Name) and node.id in lists and (local is None or node.id not in local):
+            return lists[node.id]
+        if isinstance(node, ast.Call):
+            fn = norm(node.func)
+            if fn in ("re.match", "re.search", "re.fullmatch") and len(node.args) >= 2 and all(k.arg == "flags" for k in node.keywords):
+                pat = ce.eval(node.args[0], f.module, local)
+                sv = ce.eval(node.args[1], f.module, local)
+                fl = flag_of(list(node.args[2:3]) + [k.value for k in node.keywords])
+                return getattr(_re, fn[3:])(pat, sv, fl) is not None
+            if isinstance(node.func, ast.Attribute) and node.func.attr in ("match", "search", "fullmatch") and isinstance(node.func.value, ast.Name) and \
+                    node.func.value.id in precompiled and len(node.args) == 1:
+                comp = precompiled[node.func.value.id]
+                pat = ce.eval(comp.args[0], f.module, None)
+                fl = flag_of(list(comp.args[1:]) + [k.value for k in comp.keywords if k.arg == "flags"])
+                return getattr(_re.compile(pat, fl), node.func.attr)(ce.eval(node.args[0], f.module, local)) is not None
+        return NotImplemented
+    ref = _re.compile(CSS_SAFE_KEYWORD_REF)
+    families = ("background", "border", "margin", "padding")
+    cases = [("color", "red"), ("COLOR", "red"), ("fill", "x"), ("zzz", "red"), ("border", "1px solid"), ("border", "1px evil"), ("border", "evil solid"),
+             ("border", "solid evil"), ("border-top", "solid"), ("BORDER", "solid"), ("margin", "expression(1)"), ("background", "#fff"),
+             ("padding", "10px auto"), ("background", "#0fixed"), ("background", "rgb(1,2,3)inherit"), ("margin", "1pxx"), ("border", "12pxsolid"),
+             ("border", "solid 1px #abc"), ("border", "evil"), ("borderx", "solid"), ("padding", "")]
+    n = 0
+    for prop, value in cases:
+        kept = []
+
+        def stmt_hook(st, out, interp, kept=kept):
+            if isinstance(st, ast.Expr) and isinstance(st.value, ast.Call) and norm(st.value.func) == "clean.append":
+                kept.append(st)
+                return False
+            return NotImplemented
+        key = "css-declaration[%s: %s]" % (prop, value)
+        try:
+            MiniInterp(ce, f.module, expr_hook=hook, stmt_hook=stmt_hook).run(loop.body, {pv[0]: prop, pv[1]: value, "self": Opaque("self")})
+        except (AnalysisError, NotConstant):
+            return False if n == 0 else r.idiom("R9.5", False, key, "%s:%d" % (REL, loop.lineno), "the declaration loop of sanitize_css is not decidable for this pair") and False
+        low = prop.lower()
+        want = bool(value) and (low in lists["allowed_css_properties"] or low in lists["allowed_svg_properties"] or (
+            low.split("-")[0] in families and all(k in lists["allowed_css_keywords"] or ref.match(k) for k in value.split())))
+        n += 1
+        r.check("R9.5", bool(kept) == want and len(kept) <= 1, key, "%s:%d" % (REL, loop.lineno),
+                "sanitize_css %s the declaration `%s: %s` (allowed properties {color}, svg properties {fill}, keywords {solid, auto}); it "
+                "must %s: a shorthand declaration is kept only when every keyword of its value is an allowed keyword, a colour or a length, "
+                "anything else only when the property is on a configured list" % (
+                    "keeps" if kept else "drops", prop, value, "be kept" if want else "be dropped"),
+                {"property": prop, "value": value}, detail={"kept": bool(kept)})
+    return n == len(cases)
+
+
 def css(ctx):
     r = ctx.r
     f = ctx.repo.func(REL, "Filter.sanitize_css")
     cfg = CFG(f.node)
+    evaluated = css_declarations_evaluated(ctx, f)
     appends = [n for n in cfg.stmt_nodes() if any(norm(c.func) == "clean.append" for c in node_calls(n))]
     if len(appends) < 3:
         raise AnalysisError("sanitize_css: kept-declaration appends not found")
@@ -408,8 +508,9 @@ def css(ctx):
             if isinstance(anc, ast.If) and anc.orelse and not (len(anc.orelse) == 1 and isinstance(anc.orelse[0], ast.If)) and \
                     any(y is a.ast for s in anc.orelse for y in ast.walk(s)) and "allowed_svg_properties" in norm(anc.test):
                 in_else = True
-        r.idiom("R9.5", ok, "css-append@%s" % norm(a.ast)[:40] + str(appends.index(a)), "%s:%d" % (REL, a.lineno),
-                "a CSS declaration is kept without a dominating allow-list test", wrong=[(in_else, None)], detail={"dominated": ok})
+        r.idiom("R9.5", ok or evaluated, "css-append@%s" % norm(a.ast)[:40] + str(appends.index(a)), "%s:%d" % (REL, a.lineno),
+                "a CSS declaration is kept without a dominating allow-list test", wrong=[(in_else, None)],
+                detail={"dominated": ok, "decided_by_evaluation": evaluated and not ok})
     # url() stripper first
     first = [s for s in f.node.body if not (isinstance(s, ast.Expr) and isinstance(s.value, ast.Constant))][0]
     ok = isinstance(first, ast.Assign) and norm(first.targets[0]) == f.params()[1] and "url" in norm(first.value) and ".sub(' '," in norm(first.value)
